@@ -328,6 +328,14 @@ func c08Run(e *Env) {
 				go func() {
 					ob, err := w.API.Observe(o.call.Ctx, fmt.Sprintf("/o%d", o.idx), func(n *pool.Message) {
 						ri := Snapshot(n)
+						if e.Pool.Enabled {
+							e.Pool.Hold(n, "notification inside its callback")
+							e.Pool.CheckHandover(ri, "notification handed to a callback")
+							defer func() {
+								e.Pool.CheckHeld(n, ri)
+								e.Pool.Unhold(n)
+							}()
+						}
 						var id int
 						_, _ = fmt.Sscanf(string(ri.Payload), "note-%d", &id)
 						var seq uint32
